@@ -63,7 +63,7 @@ def nfc_tab(b):
     return bytes(out)
 
 def eff_size(h, dflt):
-    return dflt if (h is None or h < 0) else h
+    return dflt if (h is None or h <= 0) else h
 
 DEFAULTS = dict(dim=256, var=256, gatt=64, vatt=8)
 
@@ -480,7 +480,7 @@ class Shadow:
 def gen_history(rng, tier):
     nprocs = 2 if rng.chance(1, 5) else 1
     nslots = 2 if rng.chance(1, 3) else 1
-    sizes = [None, 1, 2, 4, 6, 3, 256, 64, 8, -3, 16, 5]
+    sizes = [None, 1, 2, 4, 6, 3, 256, 64, 8, -3, 16, 5, 0]
     def hints():
         if rng.chance(1, 6):
             return (None, None, None, None)
@@ -600,7 +600,6 @@ def gen_history(rng, tier):
         elif r < 92:
             s2 = rng.below(nslots)
             if not sh[s2].open: s2 = s
-            if fmts[s] == 5 and fmts[s2] < 5: s2 = s     # see probe_xfmt_copy: known defect, probed separately
             v = varid(st); v2 = varid(sh[s2]); nm = name(atts_of(st, v))
             ops.append(('copy_att', s, v, nm, s2, v2))
             if nm in atts_of(st, v) and nm not in atts_of(sh[s2], v2) and (v2 == -1 or 0 <= v2 < len(sh[s2].vatts)):
@@ -865,32 +864,31 @@ def run(ctx):
     if mv is None or len(mv) != len(names) or any(bytes(a) != nfc_tab(n) for a, n in zip(mv, names)):
         ctx.violation('corr_C07_nfc_table: generator NFC table differs from Meta.nfc_tab', dict(err=str(err)), no_input=True)
 
-    # ---- (2) probes for the two defects found while building the model
+    # ---- (2) regression cases for the two defects found while building the model (repaired in /repo by
+    #      c39b68a0 and 549716e0; no key suppression: if they come back they are violations)
     ops0, asan_hit, where_txt, tail = probe_hash0(ctx, wd)
-    ml0, _ = run_model(mexe, 1, flat_of(ops0, {}), wd, 'hash0m')
-    model_ub = ml0 is not None and [UB_MARK] in ml0
-    ctx.count('hash-size-0 probe ' + hist_repr(dict(nprocs=1, nslots=1, ops=ops0)), nontrivial=True)
-    dist['hash0_probe'] = dict(model_predicts_out_of_bounds=model_ub, asan_reports=asan_hit, where=where_txt)
+    h0 = dict(nprocs=1, nslots=1, ops=ops0)
+    r0 = run_history(h0, impl, mexe, wd, 'hash0m')
+    ctx.count('hash-size-0 regression ' + hist_repr(h0), nontrivial=True)
+    dist['hash0_regression'] = dict(model_predicts_out_of_bounds=(r0['ub_at'] is not None), asan_reports=asan_hit,
+                                    where=where_txt)
     if asan_hit:
         ctx.violation('hint nc_hash_size_dim=0 is accepted; def_dim then indexes nameT[] out of bounds '
-                      '(AddressSanitizer: %s); the model predicts the out-of-bounds access (table of size 0, mask -1)'
-                      % where_txt,
+                      '(AddressSanitizer: %s)' % where_txt,
                       dict(ops=json_ops(ops0), nprocs=1, nslots=1, variant='asan', asan_tail=tail), key='hash-size-hint-0:oob')
-    elif model_ub:
-        ctx.violation('corr_C07_hash0: model predicts an out-of-bounds bucket access for hash size 0 but ASan reports nothing',
-                      dict(ops=json_ops(ops0), tail=tail), no_input=True)
+    else:
+        judge(ctx, h0, r0, impl, mexe, wd, set(), 'hash-size-0 regression case')
     hx_, rc_copy, rc_close, rc_open, mlx = probe_xfmt_copy(impl, mexe, wd)
-    ctx.count('cross-format copy probe ' + hist_repr(hx_), nontrivial=True)
-    dist['xfmt_copy_probe'] = dict(copy_rc=rc_copy, close_rc=rc_close, reopen_rc=rc_open,
-                                   model_reopen=(mlx[6][0] if mlx and len(mlx) > 6 else None))
+    rx = run_history(hx_, impl, mexe, wd, 'xfmtm')
+    ctx.count('cross-format copy regression ' + hist_repr(hx_), nontrivial=True)
+    dist['xfmt_copy_regression'] = dict(copy_rc=rc_copy, close_rc=rc_close, reopen_rc=rc_open)
     if rc_copy == 0 and rc_close == 0 and rc_open != 0:
         ctx.violation('ncmpi_copy_att copies an attribute of a CDF-5-only type (NC_INT64) into a CDF-1 file without '
                       'NC_ESTRICTCDF2; close succeeds and the file cannot be reopened (rc %d): content is not found '
                       'after close and reopen' % rc_open,
                       dict(ops=json_ops(hx_['ops']), nprocs=1, nslots=2), key='copy_att:cdf5-type-into-classic-file')
-    elif mlx and len(mlx) > 6 and (mlx[3][0], mlx[6][0] == 0) != (rc_copy, rc_open == 0):
-        ctx.violation('corr_C07_xfmt_copy: model (copy rc %d, reopen rc %d) vs library (copy rc %d, reopen rc %d)'
-                      % (mlx[3][0], mlx[6][0], rc_copy, rc_open), dict(ops=json_ops(hx_['ops'])), no_input=True)
+    else:
+        judge(ctx, hx_, rx, impl, mexe, wd, set(), 'cross-format copy regression case')
 
     # ---- (3) random long histories
     nh = 2600 if thorough else 170
